@@ -7,6 +7,8 @@ package main
 //	frame.reuse max=<n|d> <hex>   read, then acquire two bodies of that type: same object twice?
 //	frame.spec max=<n> <hex>      x/net's reading only (the Lean side answers with the RFC grammar)
 //	frame.write <TYPE> s= fl= pad= k=v…   build through the setters, WriteTo → ok <hex> :: xnet=<reading>
+//	    pad=<n>: 0 no padding, 9..255 SetPadding(true) and the pad length AddPadding is to draw (DATA, HEADERS,
+//	    PUSH_PROMISE); PUSH_PROMISE: promised=<id> eh=<0|1> frag=<hex>
 
 import (
 	"bufio"
@@ -324,8 +326,17 @@ func frKvHex(a []string, k string) []byte {
 	return b
 }
 
-// buildAndWrite builds the frame through the public setters and writes it.
-func frBuildAndWrite(t string, a []string, padded bool) ([]byte, bool) {
+// frPPSetters: the setters of PushPromise are looked up on the value, so that the harness also builds against a
+// library whose PushPromise has none of them (the frame is then written with whatever could be set, and the
+// comparison with the model and the monitors report what is missing on the wire).
+type frPPStream interface{ SetStream(uint32) }
+type frPPEndHeaders interface{ SetEndHeaders(bool) }
+type frPPPadding interface{ SetPadding(bool) }
+
+// buildAndWrite builds the frame through the public setters and writes it. settable=false: a field the operation
+// asks for has no setter, rebuilding will not change the outcome.
+func frBuildAndWrite(t string, a []string, padded bool) (out []byte, ok bool, settable bool) {
+	settable = true
 	fr := http2.AcquireFrameHeader()
 	defer http2.ReleaseFrameHeader(fr)
 	fr.SetStream(uint32(frKvNat(a, "s")))
@@ -370,6 +381,22 @@ func frBuildAndWrite(t string, a []string, padded bool) ([]byte, bool) {
 		fr.SetBody(st)
 	case "PUSH_PROMISE":
 		pp := http2.AcquireFrame(http2.FramePushPromise).(*http2.PushPromise)
+		var ppv interface{} = pp
+		if x, has := ppv.(frPPStream); has {
+			x.SetStream(uint32(frKvNat(a, "promised")))
+		} else if frKvNat(a, "promised") != 0 {
+			settable = false
+		}
+		if x, has := ppv.(frPPEndHeaders); has {
+			x.SetEndHeaders(frKvNat(a, "eh") != 0)
+		} else if frKvNat(a, "eh") != 0 {
+			settable = false
+		}
+		if x, has := ppv.(frPPPadding); has {
+			x.SetPadding(padded)
+		} else if padded {
+			settable = false
+		}
 		pp.SetHeader(frKvHex(a, "frag"))
 		fr.SetBody(pp)
 	case "PING":
@@ -393,15 +420,15 @@ func frBuildAndWrite(t string, a []string, padded bool) ([]byte, bool) {
 		c.SetHeader(frKvHex(a, "frag"))
 		fr.SetBody(c)
 	default:
-		return nil, false
+		return nil, false, settable
 	}
 	var buf bytes.Buffer
 	bw := bufio.NewWriter(&buf)
 	if _, err := fr.WriteTo(bw); err != nil {
-		return nil, false
+		return nil, false, settable
 	}
 	bw.Flush()
-	return buf.Bytes(), true
+	return buf.Bytes(), true, settable
 }
 
 func runFrameWrite(f []string) string {
@@ -412,13 +439,14 @@ func runFrameWrite(f []string) string {
 	pad := int(frKvNat(a, "pad"))
 	var out []byte
 	var ok bool
-	if pad == 0 || (t != "DATA" && t != "HEADERS") {
-		out, ok = frBuildAndWrite(t, a, false)
+	if pad == 0 || (t != "DATA" && t != "HEADERS" && t != "PUSH_PROMISE") {
+		out, ok, _ = frBuildAndWrite(t, a, false)
 	} else {
 		// AddPadding draws the pad length at random; rebuild until the requested one comes up
 		for try := 0; try < 200000; try++ {
-			out, ok = frBuildAndWrite(t, a, true)
-			if !ok || (len(out) > 9 && int(out[9]) == pad) {
+			var settable bool
+			out, ok, settable = frBuildAndWrite(t, a, true)
+			if !ok || !settable || (len(out) > 9 && int(out[9]) == pad) {
 				break
 			}
 			ok = false
